@@ -315,3 +315,20 @@ def c11(run):
     mc_vectors(run, run.q("CelEvalMC_C11", "CelEvalMC_C11_thorough"), nontrivial=lambda c: True)
     path = drive_eval(run, "c11", run.q(1500, 30000))
     validate_trace(run, "CelEvalTrace", path, nontrivial=lambda c: '"comp"' in json.dumps(c.get("ast")))
+
+
+@check("C02")
+def c02(run):
+    run.rule = ("model: every program with <=2 operators over one representative leaf of each value kind and every operator family (ill-typed included): "
+                "NoStuck (a rule yields a value or an error class for every operator x operand-kind combination), Bounded, machine = denotation; each generated "
+                "program replayed; impl->spec: seeded untyped programs (depth<=6..8) over every operator, macro, built-in, literal form, message literals, "
+                "host functions, against contexts holding i64/u64 extremes, NaN/inf, non-ASCII text, nested collections, durations/timestamps at chrono's limits, "
+                "function values; plus every ordered pair of a ~110-value pool under the host-side + - * / % == partial_cmp. A panic or time-out is never a "
+                "behaviour of the specification; non-trivial = not a bare leaf")
+    mc_vectors(run, "CelEvalMC_C02")
+    run.exhaustive = True
+    path = drive_eval(run, "c02", run.q(4000, 120000), depth=run.q(6, 8))
+    validate_trace(run, "CelEvalTrace", path, nontrivial=lambda c: c.get("ast", {}).get("k") not in ("lit", "id"))
+    pairs = drive_ops(run, "c02pairs")
+    validate_trace(run, "CelOpTrace", pairs, sample_key=op_sample, nontrivial=lambda c: c["a"]["t"] != c["b"].get("t"),
+                   what="host-side operator on two values: panic, or an outcome the value-level semantics does not allow")
